@@ -288,6 +288,9 @@ def rec_case(draw, max_obj=5, max_sp=4, min_obj=1, min_sp=1, costs="coherent", l
             present = {f for s in syn.values() for f in s}
             syn = dict(syn)
             syn["O0"] = [f for f in order if f in present]
+            if chance(draw, 1, 3):
+                # a prescribed root is any common supersequence of the leaves: it may name a family no leaf carries
+                syn["O0"].insert(draw(st.integers(0, len(syn["O0"]))), "gx")
         case["leaf_syntenies"] = syn
     return case
 
